@@ -269,11 +269,22 @@ func (o *Optimizer) OptimizeStatements(stmts []ast.Statement) []ast.Statement {
 				}
 			}
 
-			// Not a constant condition - optimize both branches
+			// Not a constant condition - optimize both branches. Facts learnt
+			// inside a branch hold only on that path: each branch starts from
+			// the facts known before the if, and afterwards everything either
+			// branch may assign is unknown. (Letting them flow on compiled
+			// `$ x = 1; if c { x = 2 }; > x` to `> 2`.)
+			before := o.snapshotFacts()
+			thenBlock := o.OptimizeStatements(s.ThenBlock)
+			o.restoreFacts(before)
+			elseBlock := o.OptimizeStatements(s.ElseBlock)
+			o.restoreFacts(before)
+			o.invalidate(getModifiedVariables(s.ThenBlock))
+			o.invalidate(getModifiedVariables(s.ElseBlock))
 			optimized := &ast.IfStatement{
 				Condition: condition,
-				ThenBlock: o.OptimizeStatements(s.ThenBlock),
-				ElseBlock: o.OptimizeStatements(s.ElseBlock),
+				ThenBlock: thenBlock,
+				ElseBlock: elseBlock,
 			}
 			result = append(result, optimized)
 
@@ -404,11 +415,63 @@ func (o *Optimizer) OptimizeStatements(stmts []ast.Statement) []ast.Statement {
 			result = append(result, &s)
 
 		default:
+			// A statement kind with no arm above is passed through unchanged,
+			// but whatever it may assign is no longer known.
+			modified := make(map[string]bool)
+			getModifiedVariablesInStmt(stmt, modified)
+			o.invalidate(modified)
 			result = append(result, stmt)
 		}
 	}
 
 	return result
+}
+
+// optimizerFacts is a copy of the optimizer's flow facts.
+type optimizerFacts struct {
+	constants   map[string]ast.Literal
+	expressions map[string]string
+	copies      map[string]string
+}
+
+func (o *Optimizer) snapshotFacts() optimizerFacts {
+	f := optimizerFacts{
+		constants:   make(map[string]ast.Literal, len(o.constants)),
+		expressions: make(map[string]string, len(o.expressions)),
+		copies:      make(map[string]string, len(o.copies)),
+	}
+	for k, v := range o.constants {
+		f.constants[k] = v
+	}
+	for k, v := range o.expressions {
+		f.expressions[k] = v
+	}
+	for k, v := range o.copies {
+		f.copies[k] = v
+	}
+	return f
+}
+
+// restoreFacts replaces the current facts by a private copy of f (so f can be
+// restored again).
+func (o *Optimizer) restoreFacts(f optimizerFacts) {
+	c := (&Optimizer{constants: f.constants, expressions: f.expressions, copies: f.copies}).snapshotFacts()
+	o.constants, o.expressions, o.copies = c.constants, c.expressions, c.copies
+}
+
+// invalidate forgets everything known about the given variables.
+func (o *Optimizer) invalidate(vars map[string]bool) {
+	for varName := range vars {
+		delete(o.constants, varName)
+		delete(o.copies, varName)
+		delete(o.expressions, varName)
+		// a copy of an invalidated variable is stale too
+		for dst, src := range o.copies {
+			if src == varName {
+				delete(o.copies, dst)
+			}
+		}
+	}
 }
 
 // foldBinaryOp performs constant folding on binary operations
@@ -830,10 +893,31 @@ func getModifiedVariablesInStmt(stmt ast.Statement, modified map[string]bool) {
 		for _, elseStmt := range s.ElseBlock {
 			getModifiedVariablesInStmt(elseStmt, modified)
 		}
+	case ast.IfStatement:
+		getModifiedVariablesInStmt(&s, modified)
 	case *ast.WhileStatement:
 		for _, bodyStmt := range s.Body {
 			getModifiedVariablesInStmt(bodyStmt, modified)
 		}
+	case ast.WhileStatement:
+		getModifiedVariablesInStmt(&s, modified)
+	case *ast.SwitchStatement:
+		for _, switchCase := range s.Cases {
+			for _, caseStmt := range switchCase.Body {
+				getModifiedVariablesInStmt(caseStmt, modified)
+			}
+		}
+		for _, defaultStmt := range s.Default {
+			getModifiedVariablesInStmt(defaultStmt, modified)
+		}
+	case ast.SwitchStatement:
+		getModifiedVariablesInStmt(&s, modified)
+	case *ast.IndexAssignStatement:
+		if name := assignedBaseVariable(s.Target); name != "" {
+			modified[name] = true
+		}
+	case ast.IndexAssignStatement:
+		getModifiedVariablesInStmt(&s, modified)
 	case *ast.ForStatement:
 		// Mark loop variables as modified
 		modified[s.ValueVar] = true
@@ -854,6 +938,30 @@ func getModifiedVariablesInStmt(stmt ast.Statement, modified map[string]bool) {
 			getModifiedVariablesInStmt(bodyStmt, modified)
 		}
 	}
+}
+
+// assignedBaseVariable returns the variable whose contents an index or field
+// assignment target (a[i] = ..., a.b[i].c = ...) modifies.
+func assignedBaseVariable(target ast.Expr) string {
+	for target != nil {
+		switch t := target.(type) {
+		case *ast.VariableExpr:
+			return t.Name
+		case ast.VariableExpr:
+			return t.Name
+		case *ast.ArrayIndexExpr:
+			target = t.Array
+		case ast.ArrayIndexExpr:
+			target = t.Array
+		case *ast.FieldAccessExpr:
+			target = t.Object
+		case ast.FieldAccessExpr:
+			target = t.Object
+		default:
+			return ""
+		}
+	}
+	return ""
 }
 
 // getUsedVariables returns the set of variables used in an expression
